@@ -53,8 +53,10 @@ type setTarget[V any] struct {
 	n   int
 }
 
-func (t *setTarget[V]) collator() age.CollatorLike[V] {
-	switch t.rk {
+func (t *setTarget[V]) collator() age.CollatorLike[V] { return t.collatorFor(t.rk) }
+
+func (t *setTarget[V]) collatorFor(rk string) age.CollatorLike[V] {
+	switch rk {
 	case "rev":
 		return &idCollator[V]{t.c, sortRankers["rev"]}
 	case "coarse":
@@ -63,10 +65,12 @@ func (t *setTarget[V]) collator() age.CollatorLike[V] {
 	return nil
 }
 
-func (t *setTarget[V]) newSet(ids []int) col.SetLike[V] {
+func (t *setTarget[V]) newSet(ids []int) col.SetLike[V] { return t.newSetWith(t.rk, ids) }
+
+func (t *setTarget[V]) newSetWith(rk string, ids []int) col.SetLike[V] {
 	class := col.Set[V](notation)
 	var s col.SetLike[V]
-	if cl := t.collator(); cl != nil {
+	if cl := t.collatorFor(rk); cl != nil {
 		s = class.MakeWithCollator(cl)
 		for _, id := range ids {
 			s.AddValue(t.c.from(id))
@@ -90,6 +94,9 @@ func (t *setTarget[V]) operand(o seqOp) col.Sequential[V] {
 	if o.alias == "self" {
 		return t.set
 	}
+	if len(o.alias) > 4 && o.alias[:4] == "set:" {
+		return t.newSetWith(o.alias[4:], o.vs) // a Set ordered by another collator
+	}
 	return col.Array[V](notation).MakeFromArray(fromIDs(t.c, o.vs))
 }
 
@@ -98,6 +105,15 @@ func (t *setTarget[V]) line(caseID int, o seqOp) callResult {
 	pre := t.contents()
 	if o.alias == "self" {
 		o.vs = pre
+	}
+	if len(o.alias) > 4 && o.alias[:4] == "set:" {
+		// the protocol ships the operand in its own iteration order
+		o.vs = ints(toIDs(c, t.newSetWith(o.alias[4:], o.vs).AsArray()))
+	}
+	rk2 := t.rk
+	if len(o.alias) > 4 && o.alias[:4] == "rk2:" {
+		rk2 = o.alias[4:]
+		o.ws = sortedFor(rk2, o.ws)
 	}
 	arg := func(i int) int {
 		if i < len(o.a) {
@@ -143,7 +159,7 @@ func (t *setTarget[V]) line(caseID int, o seqOp) callResult {
 			res = J{"b": t.set.IsEmpty()}
 		case "and", "or", "sans", "xor":
 			a := t.newSet(o.vs)
-			b := t.newSet(o.ws)
+			b := t.newSetWith(rk2, o.ws)
 			if o.alias == "same" {
 				b = a
 			}
@@ -186,6 +202,9 @@ func (t *setTarget[V]) line(caseID int, o seqOp) callResult {
 		"ws": ints(o.ws), "out": cr.kind, "post": t.contents()}
 	if o.alias != "" {
 		j["alias"] = o.alias
+	}
+	if rk2 != t.rk {
+		j["rk2"] = rk2
 	}
 	if cr.kind == "ret" {
 		j["res"] = res
@@ -259,6 +278,12 @@ func runC02Type[V any](tier string, rng Rng, out *Out, c Codec[V], u []int, outs
 			}
 			for _, name := range []string{"addValues", "removeValues", "containsAny", "containsAll"} {
 				ops = append(ops, seqOp{op: name, alias: "self"})
+				for _, other := range []string{"nat", "rev"} {
+					if other != rk && rk != "coarse" {
+						ops = append(ops, seqOp{op: name, alias: "set:" + other, vs: shuffled(rng, u, false)},
+							seqOp{op: name, alias: "set:" + other, vs: shuffled(rng, append(append([]int{}, outside...), u[0]), false)})
+					}
+				}
 			}
 			for _, o := range ops {
 				*caseID++
@@ -382,6 +407,22 @@ func runC15(tier string, seed int64, out *Out) {
 	// custom collators (values 0,1,2 / 3,4,5 / 6,7,8 tie under the coarse one: one per class)
 	runC15Type(tier, rng, out, intCodec(), []int{9, 7, 4, 2, 1}, []string{"rev"}, &caseID, stride)
 	runC15Type(tier, rng, out, intCodec(), []int{1, 4, 8, 9, 13}, []string{"coarse"}, &caseID, stride)
+	// operands carrying different collators (same equivalence, opposite order)
+	for _, pair := range [][2]string{{"nat", "rev"}, {"rev", "nat"}} {
+		u := []int{1, 3, 5, 7, 9}
+		for ma := 0; ma < 32; ma++ {
+			for mb := 0; mb < 32; mb++ {
+				if stride > 1 && (ma*32+mb)%3 != 0 {
+					continue
+				}
+				for _, op := range []string{"and", "or", "sans", "xor"} {
+					caseID++
+					t := &setTarget[int]{c: intCodec(), rk: pair[0], out: out}
+					t.line(caseID, seqOp{op: op, vs: sortedFor(pair[0], subsetOf(u, ma)), ws: subsetOf(u, mb), alias: "rk2:" + pair[1]})
+				}
+			}
+		}
+	}
 	// composite elements
 	runC15Type(tier, rng, out, sliceCodec(), []int{1, 2, 3, 6, 7}, []string{"nat"}, &caseID, stride)
 	runC15Type(tier, rng, out, setSetCodec(), []int{1, 2, 3, 5}, []string{"nat"}, &caseID, 1)
